@@ -30,10 +30,7 @@ class Call(Expression):
 
         _ParseFunction = Code('_ParseFunction')
 
-        if flags.uses_context and not self.func.is_local:
-            resolved_func = f'_ctx.{self.func.resolved}'
-        else:
-            resolved_func = self.func.resolved
+        resolved_func = self.func._qualified(flags)
 
         func = _ParseFunction(Code(resolved_func), tuple(args), tuple(kwargs))
         func = out.var('func', func)
